@@ -186,11 +186,37 @@ def bids(ctx, obs):
     txt = ast.unparse(fd.node).replace(' ', '')
     obs.soft("parts[0]=='derivatives'" in txt and 'self.derivative=parts[1]' in txt, 'TAB', qd,
               'the derivative is the directory after `derivatives`', '', '', where(prog, fd, fd.node))
+    strip_misuse(ctx, obs)
     q = 'io.bids.BidsFile._findEntity'
     f = prog.func(q)
     t = ast.unparse(f.node).replace(' ', '')
     obs.soft("startswith(f'{entity}-')" in t, 'TAB', q, 'an entity segment is recognised by its `<entity>-` prefix', '', '',
               where(prog, f, f.node))
+
+
+def strip_misuse(ctx, obs, rule='API'):
+    """str.strip / lstrip / rstrip take a SET of characters: used with a multi-character prefix or suffix they also eat the
+    leading characters of the value that happen to be in the set (`'task-stroop'.lstrip('task-') == 'roop'`).  Sweep over the
+    importers (io.*): an argument that is an f-string, or a constant with two or more alphanumeric characters, or a local bound
+    to one, is a prefix / suffix, not a character set."""
+    prog = ctx.prog
+    n = 0
+    for q, f in sorted(prog.functions.items()):
+        if not q.startswith('io.') or q.startswith('io.petnames'):
+            continue
+        local = {s.targets[0].id: s.value for s in ast.walk(f.node) if isinstance(s, ast.Assign) and isinstance(s.targets[0], ast.Name)}
+        for c in ast.walk(f.node):
+            if isinstance(c, ast.Call) and isinstance(c.func, ast.Attribute) and c.func.attr in ('strip', 'lstrip', 'rstrip') and c.args:
+                n += 1
+                a = c.args[0]
+                if isinstance(a, ast.Name) and a.id in local:
+                    a = local[a.id]
+                multi = isinstance(a, ast.JoinedStr) or (isinstance(a, ast.Constant) and isinstance(a.value, str)
+                                                         and sum(ch.isalnum() for ch in a.value) >= 2)
+                obs.check(not multi, rule, q, f'`{norm(c)[:60]}` strips a character set, not a prefix / suffix',
+                          f'`{norm(c)[:80]}`: the argument `{norm(a)[:40]}` is a multi-character prefix / suffix; strip() removes any of its '
+                          f'characters, so values beginning (ending) with one of them are mangled', '', where(prog, f, c))
+    obs.analysed['strip_calls_in_importers'] = n
 
 
 def guards(ctx, obs, rule='GUARD'):
@@ -262,6 +288,32 @@ def spm(ctx, obs):
     idx = {norm(x.slice) for x in fm}
     lv = loops[0].target.id if loops and isinstance(loops[0].target, ast.Name) else None
     obs.check(idx == {lv}, 'ACC', q, 'run i is filtered with filter matrix i', f'filter index {idx}, run index {lv}', '', where(prog, f, f.node))
+    # no lossy memoisation: a projector cached under a key that does not identify the filter matrix (its shape / length) hands
+    # run j the filter of an earlier run i whenever both share the key
+    for lp in loops:
+        caches = {}
+        for s in ast.walk(lp):
+            if isinstance(s, ast.Assign) and isinstance(s.targets[0], ast.Subscript) and isinstance(s.targets[0].value, ast.Name) \
+                    and s.targets[0].value.id != out:
+                caches[s.targets[0].value.id] = s
+        for name, st in caches.items():
+            key = st.targets[0].slice
+            read_back = any(isinstance(x, ast.Subscript) and isinstance(x.ctx, ast.Load) and isinstance(x.value, ast.Name) and x.value.id == name
+                            for x in ast.walk(lp))
+            if not read_back:
+                continue
+            lossy = any(isinstance(x, ast.Attribute) and x.attr in ('shape', 'size', 'ndim') for x in ast.walk(key)) or \
+                any(isinstance(x, ast.Call) and _leaf(x.func) == 'len' for x in ast.walk(key))
+            by_index = isinstance(key, ast.Name) and key.id == lv
+            con = 'a value cached across runs is keyed by the run'
+            if by_index:
+                obs.ok('ACC', q, con, f'`{norm(st)[:70]}`', where(prog, f, st))
+            elif lossy:
+                obs.bad('ACC', q, con, f'`{norm(st)[:90]}` caches a per-run quantity under `{norm(key)}`, which does not identify the '
+                        f'run\'s filter matrix: a later run with an equally shaped but different basis is filtered with the earlier run\'s '
+                        f'regressors', where(prog, f, st))
+            else:
+                obs.unk('ACC', q, con, f'`{norm(st)[:70]}`: key not recognised', where(prog, f, st))
     q2 = 'io.spm.SpmGlm.get_residuals'
     f2 = prog.func(q2)
     t2 = ast.unparse(f2.node).replace(' ', '')
